@@ -692,12 +692,7 @@ func (s *Session) scanInstrs(fr *Frame, instrs []ssa.Instruction, mods map[strin
 			fresh := s.rootIsFreshAlloc(x.Addr, depth)
 			var rootRef *T
 			if !fresh && depth == 0 && fr != nil {
-				if a := rootAlloc(x.Addr); a != nil {
-					if v, ok := fr.vals[a]; ok && v.Loc != nil && v.Loc.Path == "" && len(v.Loc.Idx) == 0 {
-						r := v.Loc.Ref
-						rootRef = &r
-					}
-				}
+				rootRef = s.loopInvariantRoot(fr, x.Addr)
 			}
 			for name, sort := range tmp {
 				mods[name] = sort
@@ -721,7 +716,22 @@ func (s *Session) scanInstrs(fr *Frame, instrs []ssa.Instruction, mods map[strin
 			s.addMapHeaps(mods, x.Type().Underlying().(*types.Map))
 		case *ssa.MapUpdate:
 			s.addMapHeaps(mods, x.Map.Type().Underlying().(*types.Map))
-			s.markMapReal(x.Map.Type().Underlying().(*types.Map))
+			if mm, isMk := x.Map.(*ssa.MakeMap); isMk && (depth > 0 || s.scanBlocks[mm.Block()]) {
+				// map created inside the scanned region: initialisation of a fresh object
+			} else if depth == 0 && fr != nil && definedOutside(x.Map, s.scanBlocks) {
+				mm := x.Map
+				if v, ok := fr.vals[mm]; ok && len(v.L) == 1 {
+					tmp := map[string]string{}
+					s.addMapHeaps(tmp, x.Map.Type().Underlying().(*types.Map))
+					for name := range tmp {
+						s.scanRoots[name] = append(s.scanRoots[name], v.L[0])
+					}
+				} else {
+					s.markMapReal(x.Map.Type().Underlying().(*types.Map))
+				}
+			} else {
+				s.markMapReal(x.Map.Type().Underlying().(*types.Map))
+			}
 		case *ssa.MakeInterface:
 			ls := shape(x.X.Type())
 			if !(len(ls) == 1 && (ls[0].Sort == SInt || ls[0].Sort == SBool)) {
@@ -849,7 +859,7 @@ func (s *Session) scanCall(fr *Frame, cc *ssa.CallCommon, mods map[string]string
 		}
 		return false
 	}
-	if strings.HasPrefix(name, "sync/atomic.Store") || strings.HasPrefix(name, "sync/atomic.Add") || strings.HasPrefix(name, "sync/atomic.CompareAndSwap") || name == "(*sync/atomic.Value).Store" {
+	if strings.HasPrefix(name, "sync/atomic.Store") || strings.HasPrefix(name, "sync/atomic.Add") || strings.HasPrefix(name, "sync/atomic.CompareAndSwap") || strings.HasPrefix(name, "sync/atomic.Swap") || name == "(*sync/atomic.Value).Store" {
 		k, tk, p, n, ok := staticLoc(cc.Args[0])
 		if !ok {
 			return true
@@ -911,7 +921,7 @@ func (s *Session) scanCall(fr *Frame, cc *ssa.CallCommon, mods map[string]string
 
 func init() {
 	// sync/atomic on plain integers
-	for _, ty := range []string{"Int32", "Int64", "Uint32", "Uint64"} {
+	for _, ty := range []string{"Int32", "Int64", "Uint32", "Uint64", "Pointer", "Uintptr"} {
 		ty := ty
 		builtinModels["sync/atomic.Load"+ty] = func(s *Session, fr *Frame, fn *ssa.Function, args []Val, st *State) Val {
 			v := s.load(st, s.toLoc(args[0]))
@@ -1340,4 +1350,57 @@ func (e *Engine) mayEvent(fn *ssa.Function, visiting map[*ssa.Function]bool) boo
 	}
 	e.evMemo[fn] = res
 	return res
+}
+
+// definedOutside: the value is a parameter/constant/global or an instruction of a block outside the scanned region.
+func definedOutside(v ssa.Value, blocks map[*ssa.BasicBlock]bool) bool {
+	if in, ok := v.(ssa.Instruction); ok {
+		return !blocks[in.Block()]
+	}
+	return true
+}
+
+// loopInvariantRoot: if the stored-to address is rooted at a whole-object pointer (or slice) whose value is
+// fixed before the loop, return that object's reference so that only this object is forgotten at the loop head.
+func (s *Session) loopInvariantRoot(fr *Frame, addr ssa.Value) *T {
+	for {
+		switch a := addr.(type) {
+		case *ssa.FieldAddr:
+			addr = a.X
+			continue
+		case *ssa.IndexAddr:
+			if _, isPtr := a.X.Type().Underlying().(*types.Pointer); isPtr {
+				addr = a.X
+				continue
+			}
+			// slice element: the backing array of a slice value fixed before the loop
+			if definedOutside(a.X, s.scanBlocks) {
+				if v, ok := fr.vals[a.X]; ok && len(v.L) == 3 {
+					r := v.L[0]
+					return &r
+				}
+			}
+			return nil
+		}
+		break
+	}
+	if !definedOutside(addr, s.scanBlocks) {
+		return nil
+	}
+	v, ok := fr.vals[addr]
+	if !ok {
+		return nil
+	}
+	if v.Loc != nil {
+		if v.Loc.Path == "" && len(v.Loc.Idx) == 0 {
+			r := v.Loc.Ref
+			return &r
+		}
+		return nil
+	}
+	if len(v.L) == 1 && isPointer(v.Typ) {
+		r := v.L[0]
+		return &r
+	}
+	return nil
 }
